@@ -4,8 +4,29 @@
 #include <unistd.h>
 #include <fcntl.h>
 #include <time.h>
+#include <sys/mman.h>
+#include <sys/wait.h>
 
 Ctx g_ctx;
+// shared with the supervising parent: the case being executed (so that a crash of the whole shard,
+// e.g. a sanitizer abort in a property that does not fork per case, still yields a replay file)
+struct Shared
+{
+  volatile uint64_t evals;
+  volatile uint32_t len;
+  char text[1 << 20];
+};
+static Shared *g_sh = nullptr;
+static void set_current(const Case &c)
+{
+  if (!g_sh)
+    return;
+  std::string t = c.text();
+  uint32_t n = (uint32_t)std::min(t.size(), sizeof(g_sh->text) - 1);
+  memcpy(g_sh->text, t.data(), n);
+  g_sh->len = n;
+  g_sh->evals++;
+}
 static std::vector<Prop> &props()
 {
   static std::vector<Prop> v;
@@ -106,6 +127,7 @@ static std::string write_replay(const Ctx &ctx, const Case &c, const Verdict &v,
 
 Verdict eval_fixed(const Prop &p, Ctx &ctx, const Case &c)
 {
+  set_current(c);
   Verdict v = p.run(c);
   ctx.stats.note(c, v);
   if (v.infra)
@@ -153,6 +175,7 @@ int main(int argc, char **argv)
   ctx.nshards = atoi(arg(argc, argv, "--nshards", "1").c_str());
   ctx.outdir = arg(argc, argv, "--out", ".");
   ctx.seed = strtoull(arg(argc, argv, "--seed", "1").c_str(), NULL, 10);
+  ctx.mode = arg(argc, argv, "--mode", "");
   load_known(arg(argc, argv, "--known", "/verif/KNOWN_FINDINGS.txt"));
   if (flag(argc, argv, "--list"))
   {
@@ -194,7 +217,40 @@ int main(int argc, char **argv)
       printf("REPLAY pass\n");
     return 0;
   }
+  g_sh = (Shared *)mmap(NULL, sizeof(Shared), PROT_READ | PROT_WRITE, MAP_SHARED | MAP_ANONYMOUS, -1, 0);
+  if (g_sh == MAP_FAILED)
+    g_sh = nullptr;
+  if (g_sh && !flag(argc, argv, "--no-supervisor"))
+  {
+    g_sh->evals = 0;
+    g_sh->len = 0;
+    fflush(stdout);
+    pid_t pid = fork();
+    if (pid > 0)
+    {
+      int st = 0;
+      while (waitpid(pid, &st, 0) < 0)
+      {
+      }
+      if (WIFEXITED(st) && (WEXITSTATUS(st) == 0 || WEXITSTATUS(st) == 1 || WEXITSTATUS(st) == 2))
+        return WEXITSTATUS(st);
+      // the shard died inside a case: that case is the violation
+      std::string how = WIFSIGNALED(st) ? "killed by signal " + std::to_string(WTERMSIG(st)) : "exited with code " + std::to_string(WEXITSTATUS(st)) + " (sanitizer report)";
+      Case c = Case::parse(std::string(g_sh->text, g_sh->len));
+      Verdict v = Verdict::fail("process " + how + " while executing this case (see " + errlog + ")");
+      ctx.stats.evaluations = g_sh->evals;
+      ctx.stats.violations = 1;
+      ctx.stats.first_violation_msg = v.msg;
+      ctx.stats.info["shard_crashed"] = how;
+      std::string path = write_replay(ctx, c, v, "crash");
+      printf("FAIL replay=%s msg=%s\n", path.c_str(), v.msg.c_str());
+      write_stats(ctx.stats, ctx.outdir, ctx.prop, ctx.shard);
+      return 1;
+    }
+  }
   g_child_stderr_fd = open(errlog.c_str(), O_WRONLY | O_CREAT | O_TRUNC, 0644);
+  if (g_child_stderr_fd >= 0)
+    dup2(g_child_stderr_fd, 2); // sanitizer reports of this shard go to the log as well
   struct timespec t0;
   clock_gettime(CLOCK_MONOTONIC, &t0);
   bool ok = true;
@@ -214,6 +270,7 @@ int main(int argc, char **argv)
     Case lastcase;
     bool r = rc::check(p->id, [&] {
       Case c = p->gen();
+      set_current(c);
       Verdict v = p->run(c);
       ctx.stats.note(c, v);
       if (v.infra)
